@@ -64,20 +64,20 @@ impl Node {
     pub fn dump(&self) -> Vec<String> {
         let mut out = vec![];
         out.push(format!("D role {}", self.dbs.get_role()));
-        let dbs = self.dbs.map.read().unwrap();
+        let dbs = match self.dbs.map.read() { Ok(g) => g, Err(p) => { out.push("D poisoned dbs".to_string()); p.into_inner() } };
         let mut names: Vec<&String> = dbs.keys().collect();
         names.sort_by(|a, b| a.as_bytes().cmp(b.as_bytes()));
         for name in names {
             let d = dbs.get(name).unwrap();
-            out.push(format!("D db {} id={} strat={} conns={}", escw(&d.name), d.metadata.id, d.metadata.consensus_strategy, d.connections_count()));
-            let m = d.map.read().unwrap();
+            out.push(format!("D db {} id={} strat={} conns={}", escw(&d.name), d.metadata.id, d.metadata.consensus_strategy, match d.connections.read() { Ok(c) => c.load(Ordering::Relaxed), Err(p) => p.into_inner().load(Ordering::Relaxed) }));
+            let m = match d.map.read() { Ok(g) => g, Err(p) => { out.push(format!("D poisoned {} map", escw(&d.name))); p.into_inner() } };
             let mut ks: Vec<&String> = m.keys().collect();
             ks.sort_by(|a, b| a.as_bytes().cmp(b.as_bytes()));
             for k in ks {
                 let e = m.get(k).unwrap();
                 out.push(format!("D k {} {} ver={} st={} va={} ka={} op={} v={}", escw(&d.name), escw(k), e.version, status_ch(e.state), e.value_disk_addr, e.key_disk_addr, e.opp_id, esc(&e.value)));
             }
-            let w = d.watchers.map.read().unwrap();
+            let w = match d.watchers.map.read() { Ok(g) => g, Err(p) => { out.push(format!("D poisoned {} watchers", escw(&d.name))); p.into_inner() } };
             let mut ws: Vec<&String> = w.keys().collect();
             ws.sort_by(|a, b| a.as_bytes().cmp(b.as_bytes()));
             for k in ws {
@@ -110,6 +110,21 @@ impl Node {
             let mut names: Vec<&String> = ms.keys().collect();
             names.sort_by(|a, b| a.as_bytes().cmp(b.as_bytes()));
             for n in names { let m = ms.get(n).unwrap(); out.push(format!("D member {} {} {}", escw(&m.name), m.role, if m.sender.is_some() { 1 } else { 0 })); }
+        }
+        out
+    }
+
+    pub fn dump_files(&self) -> Vec<String> {
+        let mut out = vec![];
+        if let Ok(rd) = std::fs::read_dir(&self.dir) {
+            let mut names: Vec<String> = rd.filter_map(|e| e.ok()).filter(|e| e.path().is_file()).map(|e| e.file_name().into_string().unwrap()).collect();
+            names.retain(|f| f.contains("-nun."));
+            names.sort_by(|a, b| a.as_bytes().cmp(b.as_bytes()));
+            for f in names {
+                let c = std::fs::read(format!("{}/{}", self.dir, f)).unwrap_or_default();
+                let hex: String = c.iter().map(|b| format!("{:02x}", b)).collect();
+                out.push(format!("F {} {}", escw(&f), hex));
+            }
         }
         out
     }
@@ -280,6 +295,57 @@ impl World {
                 out.extend(n.drain_all(None));
                 out.extend(n.dump_delta());
                 out
+            }
+            "SNAP" => {
+                // run the real snapshot, then report the order in which keys were written (by value address)
+                let dbs = n.dbs.clone();
+                let r = std::panic::catch_unwind(std::panic::AssertUnwindSafe(|| nundb::disk_ops::snapshot_all_pendding_dbs(&dbs)));
+                let mut out = vec![];
+                if r.is_err() { out.push(format!("R PANIC {}", LAST_PANIC.with(|p| p.borrow_mut().take()).unwrap_or_default())); }
+                let mut orders = vec![];
+                {
+                    let m = n.dbs.map.read().unwrap();
+                    let mut names: Vec<&String> = m.keys().collect(); names.sort();
+                    for name in names {
+                        let d = m.get(name).unwrap();
+                        let mm = d.map.read().unwrap();
+                        let mut ks: Vec<(&String, u64)> = mm.iter().filter(|(_, v)| v.state == ValueStatus::Ok).map(|(k, v)| (k, v.value_disk_addr)).collect();
+                        if ks.is_empty() { continue; }
+                        ks.sort_by_key(|x| x.1);
+                        let ks: Vec<String> = ks.iter().map(|(k, _)| esc_order(k)).collect();
+                        orders.push(format!("{}:{}", esc_order(name), ks.join(",")));
+                    }
+                }
+                out.insert(0, format!("@ SNAP order={}", orders.join(";")));
+                out.extend(n.dump_files());
+                out.extend(n.drain_all(None));
+                out.extend(n.dump_delta());
+                out
+            }
+            "RESTART" => {
+                let role = n.dbs.get_role();
+                let dir = n.dir.clone();
+                n.sessions.clear(); n.notices.clear();
+                let r = std::panic::catch_unwind(std::panic::AssertUnwindSafe(|| {
+                    let (dbs, repl_rx, sup_rx) = make_dbs(&dir, role, false);
+                    Databases::load_all_dbs(&dbs);
+                    (dbs, repl_rx, sup_rx)
+                }));
+                match r {
+                    Ok((dbs, repl_rx, sup_rx)) => {
+                        n.dbs = dbs; n.repl_rx = repl_rx; n.sup_rx = sup_rx;
+                        let mut out = vec!["# restarted".to_string()];
+                        out.extend(n.dump_files());
+                        out.extend(n.dump_delta());
+                        out
+                    }
+                    Err(_) => {
+                        let _ = LAST_PANIC.with(|p| p.borrow_mut().take());
+                        let (dbs, repl_rx, sup_rx) = make_dbs(&dir, role, true);
+                        n.dbs = dbs; n.repl_rx = repl_rx; n.sup_rx = sup_rx;
+                        vec!["R PANIC restart".to_string()]
+                    }
+                }
             }
             "REG" => {
                 let op: u64 = match a1.parse() { Ok(s) => s, Err(_) => return vec!["E bad-op".into()] };
